@@ -1,8 +1,6 @@
 package keeper
 
 import (
-	"encoding/binary"
-
 	sdk "github.com/cosmos/cosmos-sdk/types"
 
 	"github.com/certikfoundation/shentu/x/oracle/types"
@@ -42,22 +40,15 @@ func (k Keeper) IterateAllWithdraws(ctx sdk.Context, callback func(withdraw type
 }
 
 // IterateMatureWithdraws iterates all mature (unlocked) withdrawals in store.
+// The due block is encoded little-endian in the store key, so key order is not
+// due-block order: every withdrawal is visited and filtered by its due block.
 func (k Keeper) IterateMatureWithdraws(ctx sdk.Context, callback func(withdraw types.Withdraw) (stop bool)) {
-	b := make([]byte, 8)
-	binary.LittleEndian.PutUint64(b, uint64(ctx.BlockHeight()))
-
-	store := ctx.KVStore(k.storeKey)
-	iterator := store.Iterator(types.WithdrawStoreKeyPrefix,
-		sdk.PrefixEndBytes(append(types.WithdrawStoreKeyPrefix, b...)))
-
-	defer iterator.Close()
-	for ; iterator.Valid(); iterator.Next() {
-		var withdraw types.Withdraw
-		k.cdc.MustUnmarshalBinaryLengthPrefixed(iterator.Value(), &withdraw)
-		if callback(withdraw) {
-			break
+	k.IterateAllWithdraws(ctx, func(withdraw types.Withdraw) bool {
+		if withdraw.DueBlock > ctx.BlockHeight() {
+			return false
 		}
-	}
+		return callback(withdraw)
+	})
 }
 
 // CreateWithdraw creates a withdrawal.
